@@ -143,8 +143,13 @@ pub struct Shape {
 }
 
 pub fn shapes() -> Vec<Shape> {
+    shapes_with(0)
+}
+
+/// content 0 = filler pattern, 1 = all zero, 2 = all 0xFF (data[64] keeps its role as length byte)
+pub fn shapes_with(content: u8) -> Vec<Shape> {
     let mut out = Vec::new();
-    let lens = [0usize, 1, 63, 64, 65, 66, 67, 318, 319, 320, 321];
+    let lens = [0usize, 1, 8, 63, 64, 65, 66, 67, 318, 319, 320, 321, 7609, 7610, 65535];
     let d64s = [0u8, 1, 2, 253, 254, 255];
     for len in lens {
         for d64 in d64s {
@@ -152,8 +157,20 @@ pub fn shapes() -> Vec<Shape> {
                 continue; // data[64] does not exist: one shape per short length
             }
             let mut data = fill_bytes(len, 11);
+            match content {
+                1 => data.iter_mut().for_each(|b| *b = 0),
+                2 => data.iter_mut().for_each(|b| *b = 0xff),
+                _ => {}
+            }
             if len > 64 {
                 data[64] = d64;
+            }
+            if len == 8 && content == 0 {
+                // the FIDO applet identifier (as in an ISO 7816 SELECT by name)
+                data.copy_from_slice(&[0xa0, 0x00, 0x00, 0x06, 0x47, 0x2f, 0x00, 0x01]);
+            }
+            if len > 7000 && d64 > 1 {
+                continue; // two very large shapes are enough
             }
             for enc in 0..6u8 {
                 if let Some(b) = body(&data, enc) {
@@ -188,7 +205,9 @@ pub fn check_view(cla: u8, ins: u8, p1: u8, data: &[u8], bytes: &[u8]) -> Verdic
 }
 
 pub fn check_owned(cla: u8, ins: u8, p1: u8, data: &[u8], bytes: &[u8]) -> Verdict {
-    let want = expected(cla, ins, p1, data);
+    // data beyond the capacity of the owned buffer is refused by iso7816 (TooLong) before ctap-types
+    // is reached
+    let want = if data.len() > 1024 { Exp::Unreachable } else { expected(cla, ins, p1, data) };
     breadcrumb(TAG_APDU, bytes);
     let r = guard(|| match iso7816::Command::<1024>::try_from(bytes) {
         Err(_) => (Exp::Unreachable, true),
@@ -243,7 +262,7 @@ pub fn run(ctx: &'static Ctx) {
             unrank(idx, &rad, &mut d);
             let (cla, ins, p1, p2) = (clas[d[0] as usize], inss[d[1] as usize], p1v[d[2] as usize], p2v[d[3] as usize]);
             let sh = &sr[shape_idx[d[4] as usize]];
-            thread_local! { static BUF: std::cell::RefCell<Vec<u8>> = std::cell::RefCell::new(Vec::with_capacity(512)); }
+            thread_local! { static BUF: std::cell::RefCell<Vec<u8>> = std::cell::RefCell::new(Vec::with_capacity(66000)); }
             BUF.with(|b| {
                 let mut b = b.borrow_mut();
                 apdu(cla, ins, p1, p2, &sh.body, &mut b);
@@ -273,6 +292,30 @@ pub fn run(ctx: &'static Ctx) {
     } else {
         run_grid("all classes x all instructions x 11 P1 x 3 P2 x all data shapes x all encodings", "P1 in {00,01,02,03,04,06,07,08,09,80,FF}", all.clone(), all.clone(), p1s.to_vec(), p2s.to_vec(), all_shapes.clone(), false);
         run_grid("complete header space x decisive shapes", "256 x 256 x 256 headers x {no data, 64 bytes, 65+1 bytes} x applicable encodings", all.clone(), all.clone(), all.clone(), vec![0x00], key_shapes.clone(), false);
+    }
+    // content classes of the data field (class 0 only: the CTAP1 logic is reached)
+    let zero_shapes = shapes_with(1);
+    let ones_shapes = shapes_with(2);
+    for (label, sh2) in [("all-zero", &zero_shapes), ("all-0xFF", &ones_shapes)] {
+        let rad = [256u64, 256, sh2.len() as u64];
+        sweep(ctx, &format!("class 0 x all instructions x all P1 x every body with {} data", label), product(&rad), "challenge / application / key handle bytes all zero resp. all 0xFF", move |idx, l| {
+            let mut d = [0u64; 3];
+            unrank(idx, &rad, &mut d);
+            let (ins, p1) = (d[0] as u8, d[1] as u8);
+            let sh = &sh2[d[2] as usize];
+            thread_local! { static BUF2: std::cell::RefCell<Vec<u8>> = std::cell::RefCell::new(Vec::with_capacity(66000)); }
+            BUF2.with(|b| {
+                let mut b = b.borrow_mut();
+                apdu(0, ins, p1, 0, &sh.body, &mut b);
+                l.nontrivial += 1;
+                let v = check_view(0, ins, p1, &sh.data, &b);
+                l.bump(exp_key(&expected(0, ins, p1, &sh.data)));
+                if !v.ok {
+                    let bytes = b.clone();
+                    l.fail(ctx, idx, v, || json!({"kind": "apdu", "owned": false, "apdu": hex(&bytes), "data_len": sh.data.len(), "encoding": sh.enc}));
+                }
+            });
+        });
     }
     run_grid("owned Command<1024> conversion", "classes {00,01,80,FE,FF} x all instructions x 11 P1 x every body through try_from(&Command<S>)", vec![0x00, 0x01, 0x80, 0xfe, 0xff], all.clone(), p1s.to_vec(), vec![0x00], all_shapes.clone(), true);
     {
